@@ -406,3 +406,16 @@ _c07_base2 = contracts
 
 def contracts():
     return _c07_base2() + [sync_caller_contract(True), sync_caller_contract(False)]
+
+
+# firing exactly once per change (also inside batches) rests on the dispatcher
+_c07_base3 = contracts
+
+
+def contracts():
+    from contracts import c03 as _c03, c04 as _c04, c05 as _c05
+    extra = [_c03.call_watcher_contract(), _c04.flush_contract()] + \
+        [c for c in _c05.contracts() if c.name in ("batch_call_watchers", "_batch_call_watchers", "discard_events")]
+    for c in extra:
+        c.prop = PROP
+    return _c07_base3() + extra
